@@ -643,7 +643,9 @@ func c22(r *engine.Run) {
 	for k, v := range deliveredTypes.Map() {
 		hist["delivered:"+k] = v
 	}
+	nodePart := c22NodePath(r, outcomes)
 	r.Finish(engine.Coverage{
+		"node_configuration_path":        nodePart,
 		"evaluations":                    evals,
 		"distinct_nontrivial":            nontrivial,
 		"rule":                           "one evaluation = one real readLoop run over one (stream, chunking) pair; streams are de-duplicated and chunkings of a stream are distinct by construction; non-trivial = the chunking has >= 2 reads or the stream contains a protocol defect",
